@@ -91,7 +91,7 @@ func valueSpec(g *hx.Rng, agg string, negBias int) string {
 	case 6:
 		return "o"
 	case 7:
-		return "bnan"
+		return "bxyz"
 	default:
 		return "m"
 	}
